@@ -264,7 +264,11 @@ CubeLevel ==
               ELSE (IF Weighted THEN CellW(CountAxes, i) ELSE CellN(CountAxes, i))
       U(i) == IF HasY /\ ValidCounts THEN CellNV(i) ELSE CellN(CountAxes, i)
   IN  [ counts            |-> Num1([t \in 1..Len(cntIdx) |-> RSt(W(cntIdx[t]), WS)]),
-        unweighted_counts |-> Num1([t \in 1..Len(cntIdx) |-> R(U(cntIdx[t]))]) ]
+        unweighted_counts |-> Num1([t \in 1..Len(cntIdx) |-> R(U(cntIdx[t]))]),
+        \* header fields: the number of rows considered, and the missing count -- that of
+        \* the numeric measure when there is one
+        n_responses       |-> Num0(R(Header.n)),
+        missing           |-> Num0(R(IF HasY THEN Header.ymissing ELSE Header.missing)) ]
 CubeLevelY ==
   LET yIdx == ValidOnly(Axes, LogicalIdxAll) IN
   [ means |-> Num1([t \in 1..Len(yIdx) |-> CellMean(yIdx[t])]) ]
@@ -321,6 +325,7 @@ Out ==
     nresp |-> NResp,
     ci    |-> ci,
     flat  |-> Flat,
+    hdr   |-> Header,
     flaty |-> IF HasY THEN FlatY ELSE [none |-> 0],
     flatov |-> IF Overlaps THEN [ov |-> FlatOv(FALSE), vov |-> FlatOv(TRUE)] ELSE [none |-> 0],
     aux   |-> IF ND = 0 THEN << >> ELSE [t \in 1..NParts |-> Aux(TableEls[t])],
